@@ -235,7 +235,11 @@ class ExprMixin(EngineCore):
                 continue
             conj = []
             for k, op in enumerate(e.ops):
-                conj.append(self.compare_ext(s, op, vals[k], vals[k + 1]))
+                x, y = vals[k], vals[k + 1]
+                if isinstance(op, (ast.Lt, ast.LtE, ast.Gt, ast.GtE, ast.In, ast.NotIn)):
+                    x = self.need(s, ctx, x, e.lineno, "compare-left")
+                    y = self.need(s, ctx, y, e.lineno, "compare-right")
+                conj.append(self.compare_ext(s, op, x, y))
             out.append((s, conj[0] if len(conj) == 1 else z3.And(*conj)))
         return out
 
@@ -269,6 +273,10 @@ class ExprMixin(EngineCore):
                 if ctx.spec:
                     a = ops.lift(self.eval1(e.body, s, ctx))
                     b = ops.lift(self.eval1(e.orelse, s, ctx))
+                    if isinstance(a, Opt):
+                        a = ops.lift(a.val)
+                    if isinstance(b, Opt):
+                        b = ops.lift(b.val)
                     if ops.is_byteslike(a) and ops.is_byteslike(b):
                         a, b = ops.as_bytes(s, a), ops.as_bytes(s, b)
                     if is_z3(a) and is_z3(b):
